@@ -70,9 +70,7 @@ def run_one(choices, params):
         conn = SvcA()._connect(Channel(SocketStream(a), False), {"connid": "A", "sync_request_timeout": timeout})
         # knob: where the connection's sequence numbers start (a long-lived connection is anywhere in its number space; the
         # numbers near 2**16, 2**31, 2**32 and 2**63 are where a counter of limited width would wrap)
-        import itertools
-        start = c.pick((0, 0, 2 ** 16 - 3, 2 ** 31 - 2, 2 ** 32 - 3, 2 ** 63 - 2, 2 ** 64 - 1))
-        conn._seqcounter = itertools.count(start)
+        conn._seqcounter = pair.SeqCounter(c)     # (also skips ahead by 2**16 / 2**31 / 2**32 once in a third of the runs)
         spy = thr.Spy(sim, conn)
         rp = thr.ReorderPeer(sim, b, choices.stream("peer"), delays=(0.0, 0.0, 0.0625, 0.125, 0.25), fail_calls=True)
         sim.spawn(rp.reader, _name="peer.reader")
@@ -157,7 +155,7 @@ def run_one(choices, params):
                                 r = do()
                             except (KeyError, TimeoutError, UnicodeEncodeError) as e:
                                 exc = e
-                            mine = sorted(s for s in spy.owner if s not in before and spy.owner[s] == tid)
+                            mine = [s for s in spy.owner if s not in before and spy.owner[s] == tid]     # in order of issue
                             seq = mine[0] if mine else None
 
                             def replay(r=r, exc=exc):
@@ -173,7 +171,7 @@ def run_one(choices, params):
                                                      timeout=timeout)
                         except UnicodeEncodeError:
                             res = None
-                        mine = sorted(s for s in spy.owner if s not in before and spy.owner[s] == tid)
+                        mine = [s for s in spy.owner if s not in before and spy.owner[s] == tid]
                         if res is None:
                             if p["mode"] != "b":
                                 raise core.Violation("caller-raised/UnicodeEncodeError", "an encodable request could not be sent")
